@@ -231,6 +231,13 @@ def gen(rng, zero=False, focus=None, negative=False):
             attrs.insert(rng.randrange(len(attrs) + 1), Attr('dw', metas_body([m])))
     if item_inc or (kind == 'enum' and inc and chance(rng, 0.1)):
         attrs.insert(rng.randrange(len(attrs) + 1), Attr('dw', metas_body([MPathM('incomparable')])))
+    # a where-predicate on a user trait that is named like a derived one (`T: my::Hash`): decided by a generator state of
+    # its own so that the items stay what they were (round 9: a "don't repeat the bound" change matched trait names)
+    import zlib
+    r2 = random.Random(zlib.crc32(repr((kind, tps, sorted(derived), len(variants))).encode()))
+    same = [t for t in ('Clone', 'Debug', 'Hash', 'PartialEq', 'Default') if t in derived]
+    if tps and same and r2.random() < 0.12:
+        preds = preds + ['%s: my::%s' % (r2.choice(tps), r2.choice(same))]
     it0 = Item(kind, ident, params, preds, False, attrs, variants, '')
     lacking(rng, it0, derived, negative)
     # every type parameter must be used (E0392): give unused ones a PhantomData field where a field list exists
